@@ -7,11 +7,11 @@ Check C06_answered_together_once : forall c s ev,
   resps (snd (step c s ev)) = [] \/
   exists r, resps (snd (step c s ev)) = map (fun h => OResp (hid h) r) (held c s ev) /\ entry_ (pl (fst (step c s ev))) = None.
 Check C06_no_panic : forall c n t0 h0 a0 evs ev,
-  node_ok n -> hist_wf c (sys_start n t0 h0 a0) evs ->
+  node_ok n -> hist_wf true c (sys_start n t0 h0 a0) evs ->
   let s := after c n t0 h0 a0 evs in
   ~ In OPanic (snd (step c s ev)) /\ forall i x, nth_error (lcs (pl s)) i = Some x -> l_pc x <> PPanicked.
 Check C06_never_stuck : forall c n t0 h0 a0 evs e,
-  node_ok n -> hist_wf c (sys_start n t0 h0 a0) evs ->
+  node_ok n -> hist_wf true c (sys_start n t0 h0 a0) evs ->
   let s := after c n t0 h0 a0 evs in
   entry_ (pl s) = Some e ->
   exists i x, nth_error (lcs (pl s)) i = Some x /\ attached (l_pc x) = true /\
@@ -26,7 +26,7 @@ Check C06_poll_held_or_answered : forall c s sel en,
   (exists en', entry_ (pl (fst (step c s (EvPoll sel)))) = Some en' /\ listeners en' = listeners en) \/
   (exists r, forall h, In h (listeners en) -> In (OResp (hid h) r) (snd (step c s (EvPoll sel)))).
 Check C06_every_held_htlc_is_answered : forall c n t0 h0 a0 evs en h,
-  node_ok n -> hist_wf c (sys_start n t0 h0 a0) evs ->
+  node_ok n -> hist_wf true c (sys_start n t0 h0 a0) evs ->
   let s := after c n t0 h0 a0 evs in
   entry_ (pl s) = Some en -> In h (listeners en) -> Answered c (hid h) s.
 Print Assumptions C06_every_held_htlc_is_answered.
